@@ -77,6 +77,72 @@ def check_state(ck, rec, RPD, data, corrupt=None):
     ck.sample({"state": absstate.to_json(key), "n_orders": len(orders), "paths": npaths, "log_pdf": lp})
 
 
+def py_count(key):
+    """Perm.tla's Count formula in exact big-integer arithmetic (validated below against TLC's counts on every small forest,
+    then used as the evaluator for inputs far beyond TLC's 32-bit integers)."""
+    from math import factorial
+    f, o = key
+
+    def kids(c):
+        subs = [x for x in f if x < c]
+        return [x for x in subs if not any(x < y for y in subs)]
+
+    def multinom(sizes):
+        r = factorial(sum(sizes))
+        for s_ in sizes:
+            r //= factorial(s_)
+        return r
+
+    def count_at(c):
+        ks = kids(c)
+        own = len(c) - sum(len(k) for k in ks)
+        r = multinom([len(k) for k in ks]) * factorial(own)
+        for k in ks:
+            r *= count_at(k)
+        return r
+
+    roots = [c for c in f if not any(c < y for y in f)]
+    n = sum(len(r) for r in roots) + len(o)
+    r = multinom([len(x) for x in roots]) * (factorial(n) // (factorial(len(o)) * factorial(n - len(o)))) * factorial(len(o))
+    for x in roots:
+        r *= count_at(x)
+    return r
+
+
+def large_inputs(ck, RPD, seed):
+    import random
+    from math import log
+    from phyclone.data.base import DataPoint
+    import numpy as np
+    rnd = random.Random(seed + 3)
+    for n, n_out in ((25, 6), (60, 12), (100, 10), (200, 9), (40, 0)):
+        ids = list(range(n))
+        rnd.shuffle(ids)
+        outl = frozenset(ids[:n_out])
+        rest = ids[n_out:]
+        # a random laminar family: split the remaining points into a chain of nested clones and a few siblings
+        cuts = sorted(rnd.sample(range(1, len(rest)), min(5, len(rest) - 1)))
+        blocks = [rest[a:b] for a, b in zip([0] + cuts, cuts + [len(rest)])]
+        clades = set()
+        acc = []
+        for bi, blk in enumerate(blocks[:3]):
+            acc = acc + blk
+            clades.add(frozenset(acc))
+        for blk in blocks[3:]:
+            clades.add(frozenset(blk))
+        key = (frozenset(clades), outl)
+        data = [DataPoint(i, np.zeros((1, 3))) for i in range(n)]
+        tree = absstate.build(key, data)
+        lp = float(RPD.log_pdf(tree))
+        big = py_count(key)
+        want = -log(big)       # math.log is exact enough on arbitrarily large integers
+        ck.evaluations += 1
+        ck.nontrivial("large:%d:%d" % (n, n_out))
+        if abs(lp - want) > 1e-9 * (1 + abs(want)):
+            ck.violation("C09|log_pdf|large_input", "log_pdf of a tree with %d data points (%d outliers, %d clones) = %.12g, -log(number of compatible orders) = %.12g" % (
+                n, n_out, len(clades), lp, want), {"n": n, "outliers": n_out, "clades": [sorted(c) for c in clades]})
+
+
 def run(corrupt=None):
     ck = Check("C09")
     env.use_repo()
@@ -113,6 +179,11 @@ def run(corrupt=None):
                              {"state": absstate.to_json(key), "expected_count": rec["count"], "observed_log_pdf": lp})
             continue
         check_state(ck, rec, RPD, data, corrupt=corrupt)
+    # the counting formula in big integers: validated on every forest TLC counted, then applied to large inputs
+    bad = [absstate.key_str(absstate.canon(r_["st"])) for r_ in recs if py_count(absstate.canon(r_["st"])) != r_["count"]]
+    if bad:
+        raise tlc.TLCError("harness evaluator of Perm.tla's Count disagrees with TLC on %d forests, e.g. %s" % (len(bad), bad[:3]))
+    large_inputs(ck, RPD, ck.seed)
     # histories: the reported density must stay right on trees that were edited in place after earlier queries
     import numpy as np
     from .. import treeadt
